@@ -192,6 +192,7 @@ func runC19(c *Ctx) {
 	c19R4(c, matcher, patterns, loop)
 	c19EveryCaseTried(c)
 	c19AlternativesKept(c)
+	c19EveryCaseKept(c)
 	c19R5(c)
 	c.shared("R9", "C08/R2", "an identifier pattern binds the name for the case's body: the body's lookup of any name starts at the frame the bindings were stored into (the innermost one) and walks outwards, whatever the name looks like", keyHas("lookup-walk"), func(s *Ctx) { c08R2(s, discoverFrameModel(s.P)) })
 	c.shared("R8", "C10/R6", "the bindings of the case that matched are the ones its body sees: a name is resolved through the frames at every evaluation, never from a remembered earlier resolution", keyHas("evaluator-state", "syntax-tree-store", "interpreter-state"), func(s *Ctx) { interpreterState(s, "R6") })
@@ -952,4 +953,109 @@ func arrayArmHelper(p *Program, matcher *ssa.Function, reg map[*ssa.BasicBlock]b
 		}
 	}
 	return nil, nil
+}
+
+// innermostLoopOf: the header of the innermost natural loop that contains block b, with the loop's
+// blocks; nil when b is in no loop. A natural loop of header H: the blocks that reach a back-edge
+// source of H (a predecessor of H that H dominates) backwards without passing H.
+func innermostLoopOf(fn *ssa.Function, b *ssa.BasicBlock) (*ssa.BasicBlock, map[*ssa.BasicBlock]bool) {
+	var best *ssa.BasicBlock
+	var bestSet map[*ssa.BasicBlock]bool
+	for _, h := range fn.Blocks {
+		var srcs []*ssa.BasicBlock
+		for _, pr := range h.Preds {
+			if h.Dominates(pr) {
+				srcs = append(srcs, pr)
+			}
+		}
+		if len(srcs) == 0 {
+			continue
+		}
+		set := map[*ssa.BasicBlock]bool{h: true}
+		work := append([]*ssa.BasicBlock{}, srcs...)
+		for len(work) > 0 {
+			x := work[len(work)-1]
+			work = work[:len(work)-1]
+			if set[x] {
+				continue
+			}
+			set[x] = true
+			work = append(work, x.Preds...)
+		}
+		if !set[b] {
+			continue
+		}
+		if best == nil || len(set) < len(bestSet) {
+			best, bestSet = h, set
+		}
+	}
+	return best, bestSet
+}
+
+// iterationCanSkip: inside the innermost loop around block b, an iteration can come back to the loop
+// header without passing b.
+func iterationCanSkip(fn *ssa.Function, b *ssa.BasicBlock) (inLoop, skip bool) {
+	h, set := innermostLoopOf(fn, b)
+	if h == nil {
+		return false, false
+	}
+	if h == b {
+		return true, false
+	}
+	seen := map[*ssa.BasicBlock]bool{}
+	var work []*ssa.BasicBlock
+	for _, sc := range h.Succs {
+		if set[sc] {
+			work = append(work, sc)
+		}
+	}
+	for len(work) > 0 {
+		x := work[len(work)-1]
+		work = work[:len(work)-1]
+		if seen[x] || x == b || !set[x] {
+			continue
+		}
+		if x == h {
+			return true, true
+		}
+		seen[x] = true
+		work = append(work, x.Succs...)
+	}
+	return true, false
+}
+
+// c19EveryCaseKept (R4): the cases of a match are those written, in source order: in the match parselet
+// every case that was parsed is appended to the list before the next one is parsed. A parser that drops
+// the cases behind one it takes for a catch-all changes which case is the first that matches.
+func c19EveryCaseKept(c *Ctx) {
+	p := c.P
+	mp := p.LangFunc("match")
+	if mp == nil {
+		c.undecided("R4", "match-keeps-every-case", "", "anchor lang.match not found")
+		return
+	}
+	c.note("R4 match-keeps-every-case: in the match parselet the append of the parsed MatchCase to the case list lies on every path of an iteration of the case loop that reaches the next iteration (only a parse error leaves without it).")
+	n := 0
+	for _, f := range p.privateCluster(mp) {
+		allInstrs(f, func(in ssa.Instruction) {
+			app, ok := in.(*ssa.Call)
+			if !ok {
+				return
+			}
+			bi, ok := app.Call.Value.(*ssa.Builtin)
+			if !ok || bi.Name() != "append" || len(app.Call.Args) < 2 {
+				return
+			}
+			sl, isSl := app.Call.Args[0].Type().Underlying().(*types.Slice)
+			if !isSl || !isLangNamed(sl.Elem(), "MatchCase") {
+				return
+			}
+			n++
+			inLoop, skip := iterationCanSkip(f, app.Block())
+			c.check(inLoop && !skip, "R4", fmt.Sprintf("match-keeps-every-case #%d", n), p.InstrPos(app), "every parsed case is appended before the next one is parsed", "an iteration of the case loop can reach the next case without appending the one it parsed: a case written in the program is dropped (behind a pattern taken for a catch-all, say), so another case — or none — is the first that matches")
+		})
+	}
+	if n == 0 {
+		c.undecided("R4", "match-keeps-every-case", p.Pos(mp.Pos()), "no append to a []MatchCase found in the match parselet")
+	}
 }
